@@ -10,6 +10,7 @@ import DsdVerif.Model.World
 import DsdVerif.Gen.Grammars
 import DsdVerif.Model.Kernel
 import DsdVerif.Model.Reader
+import DsdVerif.Gen.PyFuncs
 
 namespace Dsd.Driver
 open Dsd
@@ -89,6 +90,14 @@ def unhex : List Char → List Char
   | a :: b :: c :: d :: rest => Char.ofNat (((hexVal a * 16 + hexVal b) * 16 + hexVal c) * 16 + hexVal d) :: unhex rest
   | _ => []
 
+def showPyLoop (r : Except Err (List (List Nat) × List Nat × List (List (Option Nat)))) (comp : Bool) : String :=
+  match r with
+  | .error e => showErr e
+  | .ok (li, ext, my) =>
+    if comp then "ok " ++ showNatLL li ++ " / " ++
+      " ".intercalate (my.map (fun p => ":".intercalate (p.map (fun o => match o with | some n => toString n | none => "-"))))
+    else "ok " ++ showNatLL li ++ " / " ++ " ".intercalate ((ext.mergeSort (· ≤ ·)).map toString)
+
 def step (line : String) : String :=
   match line.splitOn "\t" with
   | ["iupac.map", fn, mat, seq] =>
@@ -140,6 +149,30 @@ def step (line : String) : String :=
   | ["ptdb", pt, brk] =>
     match parsePt pt with
     | some pt => "ok " ++ String.ofList (ptToDb pt (firstChar brk))
+    | none => "bad-op"
+  -- the same operations on the functions that are TRANSLATED from the source text (Gen/PyFuncs.lean)
+  | ["pympt", ss, brk] =>
+    match Gen.py_make_pair_table ss.toList (firstChar brk) ['.'] with
+    | .ok pt => "ok " ++ showPt pt
+    | .error e => showErr e
+  | ["pyptdb", pt, brk] =>
+    match parsePt pt with
+    | some pt =>
+      match Gen.py_pair_table_to_dot_bracket pt (firstChar brk) true with
+      | .ok s => "ok " ++ String.ofList s
+      | .error e => showErr e
+    | none => "bad-op"
+  | ["pyrot1", seq, sst] =>
+    match Gen.py_rotate_complex_once (words seq) sst.toList with
+    | .ok (a, b) => "ok " ++ showNames a ++ " / " ++ String.ofList b
+    | .error e => showErr e
+  | ["pyloop", ss, comp] =>
+    match makePairTable ss.toList with
+    | .error e => showErr e
+    | .ok pt => showPyLoop (Gen.py_make_loop_index pt (comp == "1")) (comp == "1")
+  | ["pyloop.pt", pt, comp] =>
+    match parsePt pt with
+    | some pt => showPyLoop (Gen.py_make_loop_index pt (comp == "1")) (comp == "1")
     | none => "bad-op"
   | ["mst.str", seq, brk] =>
     "ok " ++ "|".intercalate ((makeStrandTableStr (firstChar brk) seq.toList).map String.ofList)
